@@ -7,6 +7,7 @@
 # License: BSD
 # ------------------------------------------------------------------------------
 
+import copy
 from typing import Any, List, Tuple, cast
 
 from . import c_ast
@@ -168,11 +169,17 @@ def _fix_atomic_specifiers_once(
 
     assert isinstance(parent, c_ast.TypeDecl)
     assert grandparent is not None
-    if node.type.coord is None:
+    # The specifier node is shared by all the declarators of a declaration:
+    # splice a copy, so that each declarator gets its own type (and name).
+    inner = copy.deepcopy(node.type)
+    if inner.coord is None:
         # Preserve the declarator coord for _Atomic(T) so TypeDecl doesn't lose
         # its location when we replace the wrapper Typename.
-        node.type.coord = parent.coord
-    cast(Any, grandparent).type = node.type
-    if "_Atomic" not in node.type.quals:
-        node.type.quals.append("_Atomic")
+        inner.coord = parent.coord
+    cast(Any, grandparent).type = inner
+    # Qualifiers written next to the specifier (const _Atomic(int) x) sit on
+    # the TypeDecl that is being replaced.
+    inner.quals = [q for q in parent.quals if q not in inner.quals] + inner.quals
+    if "_Atomic" not in inner.quals:
+        inner.quals.append("_Atomic")
     return decl, True
